@@ -491,12 +491,40 @@ func (k *c06) craftedDollar() {
 	}
 }
 
+// crafted identifiers: every identifier position of the statement forms filled with unusual but lexable identifiers
+// (empty quoted name, doubled quotes, keywords, one-character names); only totality is judged here.
+func (k *c06) craftedIdentifiers() {
+	ids := []string{`""`, `"a""b"`, `""""`, `" "`, `"now"`, `"NOW"`, `now`, `uuid`, `"uuid"`, `system`, `"system"`, `a`, `_`, `"1"`, `json`, `set`, `values`, `key`, `"."`, `"("`}
+	forms := []string{
+		"INSERT INTO %[1]s (k, v) VALUES (1, 2)", "INSERT INTO ks.%[1]s (k, v) VALUES (1, 2)", "INSERT INTO %[1]s.t (k, v) VALUES (1, 2)",
+		"INSERT INTO t (%[1]s, v) VALUES (1, 2)", "INSERT INTO t (k, v) VALUES (1, %[1]s())", "INSERT INTO t (k, v) VALUES (1, %[1]s(2))",
+		"INSERT INTO t (k, v) VALUES (1, ks.%[1]s())", "INSERT INTO t (k, v) VALUES (1, %[1]s.f())", "INSERT INTO t (k, v) VALUES (1, %[1]s.%[1]s(3))",
+		"INSERT INTO t (k, v) VALUES (1, {%[1]s: 2})", "INSERT INTO t (k, v) VALUES (1, {%[1]s(): 2})", "INSERT INTO t (k, v) VALUES (1, {%[1]s.%[1]s(): 2})",
+		"INSERT INTO t (k, v) VALUES (1, (%[1]s) 2)", "INSERT INTO t (k, v) VALUES (1, :%[1]s)", "INSERT INTO t (k, v) VALUES (1, [%[1]s(), 2])",
+		"UPDATE %[1]s SET v = 1 WHERE k = 2", "UPDATE t SET %[1]s = 1 WHERE k = 2", "UPDATE t SET v = %[1]s() WHERE k = 2", "UPDATE t SET v = v + %[1]s() WHERE k = 2",
+		"UPDATE t SET %[1]s.%[1]s = 1 WHERE k = 2", "UPDATE t SET v[%[1]s()] = 1 WHERE k = 2", "UPDATE t SET v = 1 WHERE %[1]s = 2", "UPDATE t SET v = 1 WHERE k = %[1]s(2)",
+		"UPDATE t SET v = 1 WHERE k IN (1, %[1]s(2))", "UPDATE t SET v = 1 WHERE token(%[1]s) > %[1]s()", "UPDATE t USING TTL 1 SET v = 1 WHERE k = 2 IF %[1]s = 3",
+		"DELETE %[1]s FROM t WHERE k = 1", "DELETE v[%[1]s()] FROM t WHERE k = 1", "DELETE v.%[1]s FROM t WHERE k = 1", "DELETE FROM %[1]s WHERE k = 1", "DELETE FROM t WHERE %[1]s CONTAINS %[1]s()",
+		"BEGIN BATCH INSERT INTO %[1]s (k) VALUES (%[1]s()); UPDATE %[1]s SET %[1]s = %[1]s() WHERE %[1]s = 1 APPLY BATCH", "SELECT %[1]s FROM %[1]s", "USE %[1]s",
+	}
+	for _, id := range ids {
+		for fi, f := range forms {
+			text := fmt.Sprintf(f, id)
+			sc := map[string]interface{}{"kind": "crafted-identifier", "form": fi, "id": id}
+			if _, _, p := k.classify(text, "crafted-identifier", sc); !p {
+				k.obs["crafted_identifier_statements"]++
+			}
+		}
+	}
+	k.r.NonTrivial("crafted-identifiers")
+}
+
 // ---------------------------------------------------------------------------------------------------------------------
 // (d) totality: hostile inputs
 
 var c06Soup = strings.Fields(`SELECT INSERT UPDATE DELETE BEGIN APPLY BATCH UNLOGGED COUNTER INTO FROM USING TTL TIMESTAMP SET WHERE AND IF NOT EXISTS IN IS NULL TOKEN CONTAINS KEY LIKE
 JSON DEFAULT UNSET VALUES USE CREATE ALTER DROP ( ) [ ] { } , . : ; ? = + - += -= < > <= >= != * a b "q" 'str' $$d$$ $ ' " 1 -1 1.5 1e3 0xAB 1h P1Y NaN -Infinity true null
-now uuid system 123e4567-e89b-12d3-a456-426614174000 (int) (list<int>) ks.t f( now() system.now()`)
+now uuid system 123e4567-e89b-12d3-a456-426614174000 (int) (list<int>) ks.t f( now() system.now() "" ""( "".""( """" :""`)
 
 var c06HostileBytes = []string{"\x00", "\xff", "\xc3", "\xe2\x82", "$", "\"", "'", "\r", "\\", "µ", " ", "\x1b", "--", "/*", "\x80\x80\x80\x80"}
 
@@ -819,6 +847,8 @@ func runC06(c *Ctx) {
 	if c.Shard == 0 {
 		c.Step("crafted-dollar")
 		k.craftedDollar()
+		c.Step("crafted-identifiers")
+		k.craftedIdentifiers()
 	}
 	for b := 0; b*c06Batch < nStmt; b++ {
 		if b%work != c.Shard {
